@@ -16,6 +16,7 @@ Arguments tl_try : simpl never.
 Arguments tl_rel_raises : simpl never.
 Arguments normalise : simpl never.
 Arguments faulty : simpl never.
+Arguments intr : simpl never.
 Arguments enabled : simpl never.
 Arguments step : simpl never.
 Arguments run_alone : simpl never.
@@ -98,10 +99,10 @@ Inductive Phase (s : state) : Prop :=
 | Ph3 a d :
     thr s t = mkthr p [] (PFlock a d) res0 cs0 -> a_ok a -> Frame s (Some d) (holder s0) ->
     objs s o = acq_obj ob0 t -> o_fd ob0 = None -> time2 s (a_start a) -> tl_try ob0 t <> None -> Phase s
-| Ph3c a d :
-    thr s t = mkthr p [] (PCloseF a d) res0 cs0 -> a_ok a -> Frame s (Some d) (holder s0) ->
+| Ph3c a d (i : bool) :
+    thr s t = mkthr p [] (PCloseF a d i) res0 cs0 -> a_ok a -> Frame s (Some d) (holder s0) ->
     objs s o = acq_obj ob0 t -> o_fd ob0 = None -> time2 s (a_start a) ->
-    (holder s0 <> None \/ faults s0 <> []) -> tl_try ob0 t <> None -> Phase s
+    (holder s0 <> None \/ faults s0 <> []) -> (i = true -> faults s0 <> []) -> tl_try ob0 t <> None -> Phase s
 | Ph4 a (b : bool) :
     thr s t = mkthr p [] (PCleanRel a b) res0 cs0 -> a_ok a -> Frame s None (holder s0) ->
     objs s o = set_cnt (acq_obj ob0 t) (o_cnt ob0) -> o_fd ob0 = None -> time_fin s ->
@@ -217,7 +218,7 @@ Proof.
 Qed.
 
 Lemma phase_not_done s : Phase s -> call_done s t = false.
-Proof. intros [a dl E|a E|a w E|a d E|a d E|a b E]; unfold call_done; rewrite E; reflexivity. Qed.
+Proof. intros [a dl E|a E|a w E|a d E|a d i E|a b E]; unfold call_done; rewrite E; reflexivity. Qed.
 
 Definition Step_out (s : state) : Prop :=
   (enabled s t = true /\ exists r, Final (step s t) r /\ call_done (step s t) t = true /\ last_result (step s t) t = r)
@@ -292,7 +293,7 @@ Qed.
 
 Lemma enabled_simple s pend h pc :
   Frame s pend h -> thr s t = mkthr p [] pc res0 cs0 ->
-  match pc with POpen _ | PCloseF _ _ | PCleanRel _ _ => True | _ => False end ->
+  match pc with POpen _ | PCloseF _ _ _ | PCleanRel _ _ => True | _ => False end ->
   enabled s t = true.
 Proof.
   intros F Ht Hpc. unfold enabled. rewrite (not_dead _ _ _ _ F Ht), Ht. cbn. destruct pc; tauto.
@@ -306,7 +307,12 @@ Proof.
   destruct (thr_facts _ _ Ht) as (Tpc & Tpr & _).
   assert (En : enabled s t = true) by (eapply enabled_simple; eauto; exact I).
   right. left. split; auto. rewrite (step_open _ _ a En Tpc). cbn.
-  destruct (faulty s KOpen) eqn:Ef.
+  destruct (faulty s KOpen) eqn:Ef; [destruct (intr s KOpen)|].
+  - apply (cleanup_phase _ a true (POpen a)); auto.
+    + apply (Frame_soft s); auto.
+    + eapply time2_fin. unfold time2 in *. cbn. exact Htm.
+    + intros _. eapply faulty_nonempty; eauto.
+    + discriminate.
   - apply (attempt_phase _ a (POpen a)); auto.
     + apply (Frame_soft s); auto.
     + right. eapply faulty_nonempty; eauto.
@@ -352,9 +358,9 @@ Proof.
   { unfold enabled. rewrite Hnd, Tpc, Ab, At. reflexivity. }
   assert (Hfail : forall s1, objs s1 = objs s -> thr s1 = thr s -> holder s1 = holder s -> fdown s1 = fdown s ->
             nextfd s1 = nextfd s -> dead s1 = dead s -> viol s1 = viol s -> faults s1 = faults s -> now s1 = now s ->
-            (holder s0 <> None \/ faults s0 <> []) ->
-            Phase (set_pc s1 t (PCloseF a d))).
-  { intros s1 E1 E2 E3 E4 E5 E6 E7 E8 E9 R. apply (Ph3c _ a d); auto.
+            (holder s0 <> None \/ faults s0 <> []) -> forall i, (i = true -> faults s0 <> []) ->
+            Phase (set_pc s1 t (PCloseF a d i))).
+  { intros s1 E1 E2 E3 E4 E5 E6 E7 E8 E9 R i Hi. apply (Ph3c _ a d i); auto.
     - ev. rewrite E2, Ht. reflexivity.
     - apply (Frame_soft s); auto; intros; ev; rewrite ?upd_other by congruence; rewrite ?E1, ?E2; auto.
     - ev. now rewrite E1.
@@ -364,7 +370,7 @@ Proof.
   destruct (enabled s t) eqn:Een.
   - rewrite (step_flock _ _ a d Een Tpc). cbn.
     destruct (faulty s KLock) eqn:Ef.
-    + right. left. split; auto. apply Hfail; auto. right. eapply faulty_nonempty; eauto.
+    + right. left. split; auto. apply Hfail; auto; [right|intros _]; eapply faulty_nonempty; eauto.
     + change (holder_free_for _ d) with (holder_free_for s d).
       destruct (holder_free_for s d) eqn:Eh.
       * left. split; auto. exists RTrue. split; [|split; [unfold call_done; ev; rewrite ?Ht; reflexivity|unfold last_result; ev; reflexivity]].
@@ -377,7 +383,7 @@ Proof.
         -- unfold holder_free_for in Eh. rewrite (f_holder _ _ _ F) in Eh. destruct (holder s0) as [h|]; auto.
            right. apply Nat.eqb_eq in Eh. now subst.
         -- eapply time2_fin. unfold time2 in *. cbn. exact Htm.
-      * right. left. split; auto.
+      * right. left. split; auto. apply Hfail; auto. discriminate.
   - right. right. right. split; auto. symmetry in En.
     destruct b' eqn:Eb; [|discriminate]. destruct tm' as [| |T] eqn:ET; try discriminate; cbn in En;
       apply orb_false_elim in En; destruct En as [E1 E2];
@@ -385,18 +391,18 @@ Proof.
       intros o'; (destruct (Nat.eq_dec o' o) as [->|Hne]; [now rewrite Ho|now rewrite (f_obj _ _ _ F)]).
 Qed.
 
-Lemma phase3c_step s a d :
-  thr s t = mkthr p [] (PCloseF a d) res0 cs0 -> a_ok a -> Frame s (Some d) (holder s0) ->
+Lemma phase3c_step s a d i :
+  thr s t = mkthr p [] (PCloseF a d i) res0 cs0 -> a_ok a -> Frame s (Some d) (holder s0) ->
   objs s o = acq_obj ob0 t -> o_fd ob0 = None -> time2 s (a_start a) ->
-  (holder s0 <> None \/ faults s0 <> []) -> tl_try ob0 t <> None -> Step_out s.
+  (holder s0 <> None \/ faults s0 <> []) -> (i = true -> faults s0 <> []) -> tl_try ob0 t <> None -> Step_out s.
 Proof.
-  intros Ht Ha F Ho Hfd Htm R Htry. pose proof Ha as (Ao & Am & Ab & At & Ap & As). unfold Step_out.
+  intros Ht Ha F Ho Hfd Htm R Hi Htry. pose proof Ha as (Ao & Am & Ab & At & Ap & As). unfold Step_out.
   destruct (thr_facts _ _ Ht) as (Tpc & Tpr & _).
   assert (En : enabled s t = true) by (eapply enabled_simple; eauto; exact I).
-  right. left. split; auto. rewrite (step_closef _ _ a d En Tpc). cbn.
+  right. left. split; auto. rewrite (step_closef _ _ a d i En Tpc). cbn.
   assert (G : forall s1, objs s1 = objs s -> thr s1 = thr s -> holder s1 = holder s -> fdown s1 = fdown s ->
             nextfd s1 = nextfd s -> dead s1 = dead s -> viol s1 = viol s -> faults s1 = faults s -> now s1 = now s ->
-            Frame (k_close s1 d) None (holder s0) /\ thr (k_close s1 d) t = mkthr p [] (PCloseF a d) res0 cs0 /\
+            Frame (k_close s1 d) None (holder s0) /\ thr (k_close s1 d) t = mkthr p [] (PCloseF a d i) res0 cs0 /\
             objs (k_close s1 d) o = acq_obj ob0 t /\ time2 (k_close s1 d) (a_start a)).
   { intros s1 E1 E2 E3 E4 E5 E6 E7 E8 E9.
     assert (N2 : now (k_close s1 d) = now s).
@@ -413,16 +419,16 @@ Proof.
     - intros d' Hd' _. rewrite fdown_k_close, E4. destruct (Nat.eqb_spec d' d); auto. apply E; auto. congruence.
     - discriminate.
     - rewrite FL. auto. }
-  destruct (faulty s KClose) eqn:Ef.
+  destruct (faulty s KClose || i) eqn:Ef.
   - match goal with |- Phase (enter_cleanup (k_close ?s1 d) _ _ _) =>
       destruct (G s1) as (F2 & T2 & O2 & Tm2); try reflexivity;
-      apply (cleanup_phase (k_close s1 d) a true (PCloseF a d) T2 Ha F2 O2 Hfd); auto end.
+      apply (cleanup_phase (k_close s1 d) a true (PCloseF a d i) T2 Ha F2 O2 Hfd); auto end.
     + eapply time2_fin; eauto.
-    + intros _. apply (faulty_nonempty s (Some d) (holder s0) KClose F Ef).
+    + intros _. apply orb_prop in Ef. destruct Ef as [Ef|Ef]; [apply (faulty_nonempty s (Some d) (holder s0) KClose F Ef)|auto].
     + discriminate.
   - match goal with |- Phase (after_attempt (k_close ?s1 d) _ _) =>
       destruct (G s1) as (F2 & T2 & O2 & Tm2); try reflexivity;
-      apply (attempt_phase (k_close s1 d) a (PCloseF a d) T2 Ha F2 O2 Hfd Tm2 R Htry) end.
+      apply (attempt_phase (k_close s1 d) a (PCloseF a d i) T2 Ha F2 O2 Hfd Tm2 R Htry) end.
 Qed.
 
 Lemma phase4_step s a b :
@@ -448,7 +454,7 @@ Qed.
 
 Lemma phase_step s : Phase s -> Step_out s.
 Proof.
-  intros [a dl A B C D E|a A B C D E G H|a w A B C D E G H I0 J|a d A B C D E G H|a d A B C D E G H I0|a b A B C D E G H I0 J].
+  intros [a dl A B C D E|a A B C D E G H|a w A B C D E G H I0 J|a d A B C D E G H|a d i A B C D E G H I0 J0|a b A B C D E G H I0 J].
   - eapply phase1_step; eauto.
   - eapply phase2_step; eauto.
   - eapply phase2s_step; eauto.
